@@ -32,7 +32,7 @@ EXTRA_STANDINS = {
     "xreg": {"props": XREG_PROPS, "short": "real registration + report text, every model hierarchy up to the bound",
              "unit_of_count": "hierarchies", "scenario_word": "model hierarchy",
              "what": "contracts/xreg.rs: real text of simulation::add_model (with its real async model task), BuildContext, SimInit::{add_model,init}, Simulation::{new,run} cut from /repo with no rewrite rule, compiled against executable stubs, run on every model hierarchy up to the bound. LABELLED BOUNDED: not part of obligations/discharged."},
-    "xsched": {"props": {"C08", "C09", "C10"}, "short": "real text of the scheduling requests and action kinds, every request up to the bound",
+    "xsched": {"props": {"C07", "C08", "C09", "C10"}, "short": "real text of the scheduling requests and action kinds, every request up to the bound",
                "unit_of_count": "requests", "scenario_word": "request",
                "what": "contracts/xsched.rs: real text of GlobalScheduler::{time, schedule_from, schedule_*_event_from}, ActionKey, Action, ActionInner and its periodic/keyed impls, process_event, send_keyed_event, InputFn and util/priority_queue.rs cut from /repo with no rewrite rule, compiled against executable stubs (a Sender that delivers at once); every request up to the bound compared with the statements of C08/C09/C10. LABELLED BOUNDED: not part of obligations/discharged."},
     "xbcast": {"props": {"C14"}, "short": "real text of the output broadcasters and the task set, every query scenario up to the bound",
